@@ -194,7 +194,7 @@ func cmdCheck(args []string) {
 		}
 	}
 	unbound := p.unboundContracts()
-	for _, u := range p.theoremUnits() {
+	for _, u := range append(p.callRuleUnits(), p.theoremUnits()...) {
 		has := false
 		for _, o := range u.obligs {
 			if hasProp(o.Props, *prop) {
